@@ -22,6 +22,11 @@ void L_u64(int idx, uint64_t x) { printf(" %d=u:%llx", idx, (unsigned long long)
 void L_len(int idx, size_t n) { printf(" %d=len:%zu", idx, n); }
 double d_f64(int k, int i, int v, int salt) {
   int n = (int)((unsigned)(k * 131 + i * 37 + v * 11 + salt * 5 + 3) % 4001u) - 2000;
+  /* now and then a value at the edge of what a float holds (all exact in float and in double):
+     signed zero, infinities, the largest and the smallest normal float, the smallest subnormal float */
+  static const double edge[] = {-0.0, 1.0 / 0.0, -1.0 / 0.0, 340282346638528859811704183484516925440.0, -340282346638528859811704183484516925440.0,
+                                1.17549435082228750796873653722e-38, 1.40129846432481707092372958329e-45, -1.40129846432481707092372958329e-45};
+  if ((k + 2 * i + v + salt) % 5 == 0) return edge[(unsigned)(k + i + 3 * v + salt) % 8u];
   return (double)n / 8.0;            /* |n| <= 2000: exact in float and double */
 }
 void L_f64(int idx, double x) { uint64_t b; memcpy(&b, &x, 8); printf(" %d=f:%llx", idx, (unsigned long long)b); }
